@@ -38,6 +38,7 @@ def run(R):
     common.load_ir(R)
     names = common.names_for(R, 'C10')
     obs = check.verify_functions(R, names)
+    obs += common.avr_pass(R, names)
     obs += common.lemma_obligations(R, 'C10')
     check.discharge(R, obs, timeout=60)
     fail = bounded(R)
